@@ -12,6 +12,7 @@ mod binning;
 mod chunks;
 mod counts;
 mod flat;
+mod paths;
 mod roundtrip;
 mod util;
 
@@ -91,5 +92,6 @@ fn main() {
         ctx.harness(Config::new("rt_handbuilt", bound), |ch| roundtrip::body_handbuilt(ch, &hf));
         flat::run(ctx);
         counts::run(ctx);
+        paths::run(ctx);
     });
 }
